@@ -59,6 +59,10 @@ def grid(dialect, quotes):
                         {"source": ["<default>.src_t"], "target": ["<default>.fin_t"], "intermediate": [Tb], "pairs": [["<default>.src_t.c1", "<default>.fin_t.c1"]]}, "KF-16b"))
             if nparts == 1:
                 out.append(("qualifier", f"insert into tgt_t select {name}.c1 from {name}", {"source": [T], "target": ["<default>.tgt_t"], "pairs": [[f"{T}.c1", "<default>.tgt_t.c1"]]}, None, None))
+            if nparts >= 2:
+                # schema.table.column / db.schema.table.column references: the qualifier is the table part
+                out.append(("column_qualified_by_full_name", f"insert into tgt_t select {name}.c1 from {name}", {"source": [T], "target": ["<default>.tgt_t"], "pairs": [[f"{T}.c1", "<default>.tgt_t.c1"]]},
+                            {"source": [Tb], "target": ["<default>.tgt_t"], "pairs": [[f"{Tb}.c1", "<default>.tgt_t.c1"]]}, "KF-16b"))
             if nparts == 2:
                 out.append(("qualifier_of_qualified_table", f"insert into tgt_t select {parts[-1]}.c1 from {name}", {"source": [T], "target": ["<default>.tgt_t"], "pairs": [[f"{T}.c1", "<default>.tgt_t.c1"]]},
                             {"source": [Tb], "target": ["<default>.tgt_t"], "pairs": [[f"{Tb}.c1", "<default>.tgt_t.c1"]]}, "KF-16b"))
@@ -207,6 +211,10 @@ def run(tier):
             quoted = any(ch in case["sql"] for ch in "\"`[")
             if (quoted and o == low) or (pos == "insert_column_list" and o["pairs"] == [["<default>.src_t.c1", "<default>.tgt_t.c1"]]):
                 k = "KF-16c"
+            if pos == "column_qualified_by_full_name" and o["source"] == low["source"] and o["target"] == low["target"]:
+                first = low["source"][0].split(".")[0]
+                if o["pairs"] == [[f"<default>.{first}.c1", "<default>.tgt_t.c1"]]:
+                    k = "KF-16e"  # the legacy analyzer takes the first part of a multi-part column reference as its qualifier
         run_.judge(b, "name_not_as_predicted:" + pos, det, kf_id=k)
     run_.exhaustive = True
     run_.extra.update({"positions": positions, "not_accepted_by_dialect": rejected, "dialect_families": {k: v for k, v in fams.items()}})
